@@ -91,7 +91,7 @@ def function_level(r):
 
 
 def run():
-    chk = Check("C09")
+    chk = Check("C09", props_modules=["GFO.Props.C09", "GFO.Props.GaSelect", "GFO.Props.SmboRuns", "GFO.Props.DirectSelect"])
     chk.build_and_audit()
     r = C.rng("C09")
     quick = C.tier() != "thorough"
@@ -147,6 +147,13 @@ def run():
         n, fails, keys, summary = st
         chk.monitor("paired runs on f and -f (unimodal, optimum near a corner, 3 sign regimes): score-blind optimizers evaluate identical points; every other optimizer (and the surrogate optimizers with candidate subsampling on) must favour f: sequential test - all pairs, else seed set doubled (>= 90 %), else 6 x seeds; fewer than 70 % of all pairs favouring f is a failing input",
                     n, fails, keys, [summary])
+    from . import localgen
+    # the decision sites whose orientation is a theorem about a complete model are tied to the code here: GA's parent selection
+    # (GaSelect), ES's sort (checked argsort), the acquisition ordering of the surrogate optimizers (SmboRuns) and DIRECT's selection
+    localgen.add_pt_to(chk, C.rng("C09-ea"), C.T(30, 200), constraint_p=0.2, nonfinite_p=0.1,
+                       names=["GeneticAlgorithmOptimizer", "EvolutionStrategyOptimizer"])
+    localgen.add_smbo_to(chk, C.rng("C09-smbo"), C.T(3, 20), constraint_p=0.2, nonfinite_p=0.1)
+    localgen.add_direct_to(chk, C.rng("C09-direct"), C.T(10, 100), constraint_p=0.2, nonfinite_p=0.1)
     chk.assumptions.append("the statistical half of C09 ('seed for seed higher') is examined by the paired sign test only - it is not a theorem about any executable model")
     scen.shutdown_manager()
     return chk.finish()
